@@ -484,8 +484,9 @@ def create_weights(
     return weights, biases
 
 
-def create_npu_activation(op: Operation) -> NpuActivation:
-    """Creates fused activation function"""
+def create_npu_activation(op: Operation, ofm_zero_point_is_0: bool) -> NpuActivation:
+    """Creates fused activation function.
+    ofm_zero_point_is_0: the zero point of the OFM is forced to 0 for this operation (see use_zero_point_0)"""
     if op.activation is None:
         return NpuActivation(NpuActivationOp.NONE_OR_RELU)
     faf = op.activation.op_type
@@ -502,7 +503,9 @@ def create_npu_activation(op: Operation) -> NpuActivation:
     act = NpuActivation(act_op)
     act.min = op.activation.min
     act.max = op.activation.max
-    if act_op is NpuActivationOp.NONE_OR_RELU and op.type.is_avgpool_op() and not op.explicit_scaling:
+    if act_op is NpuActivationOp.NONE_OR_RELU and ofm_zero_point_is_0:
+        # The operation produces values that already contain the zero point of the OFM tensor while the OFM zero point
+        # register is 0: the clamp bounds (quantised with zero point 0 later on) must contain the zero point as well
         quant = op.ofm.quantization
         if quant and quant.zero_point:  # Zero point is not 0
             scale_f32 = 1 if quant.scale_f32 is None else quant.scale_f32
@@ -543,7 +546,7 @@ def set_common_op_fields(npu_op: NpuBlockOperation, cmd: NpuStripe, arch: Archit
 
     if cmd.weight_tensor is not None:
         npu_op.weights, npu_op.biases = create_weights(cmd.weight_tensor, cmd.weight_box, cmd.scale_tensor, arch)
-    npu_op.activation = create_npu_activation(op)
+    npu_op.activation = create_npu_activation(op, use_zero_point_0(ps, cmd.ofm_tensor, False))
     npu_op.fused_quantize = any(op.type == Op.Quantize or op.original_type == Op.Quantize for op in ps.ops)
     npu_op.rounding_mode = get_rounding_mode(op, npu_op.fused_quantize)
     npu_op.block_config = NpuShape3D(height=ps.block_config[0], width=ps.block_config[1], depth=ps.block_config[3])
